@@ -126,6 +126,8 @@ def show(a):
     if k == 'a':
         return '{%s}' % ';'.join(','.join(show(x) for x in r) for r in a['rows'])
     if k == 'approx':
+        if 'fn' in a:
+            return '~%s(%s)' % (a['fn'], ','.join(show(x) for x in a['args']))
         return 'approx(sign=%s)' % a.get('sign')
     if k == 'any':
         return 'anyof(%s)' % '|'.join(show(x) for x in a['of'])
@@ -156,6 +158,33 @@ def close(x, y, rel=1e-9):
     return abs(x - y) <= rel * max(1.0, abs(x), abs(y))
 
 
+def _stdev(xs, sample):
+    m = math.fsum(xs) / len(xs)
+    return math.sqrt(math.fsum((x - m) ** 2 for x in xs) / (len(xs) - (1 if sample else 0)))
+
+
+_APPROX = {
+    'SQRT': math.sqrt, 'EXP': math.exp, 'LN': math.log, 'LOG10': math.log10,
+    'SIN': math.sin, 'COS': math.cos, 'TAN': math.tan, 'ASIN': math.asin, 'ACOS': math.acos,
+    'ATAN': math.atan, 'SINH': math.sinh, 'COSH': math.cosh, 'TANH': math.tanh,
+    'RADIANS': math.radians, 'DEGREES': math.degrees,
+    'LOG': lambda x, b: math.log(x) / math.log(b),
+    'ATAN2': lambda x, y: math.atan2(y, x),
+}
+
+
+def approx_ref(fn, xs):
+    """Double-precision value of an irrational result the specification only names."""
+    try:
+        if fn in ('STDEV', 'STDEV.S'):
+            return _stdev(xs, True)
+        if fn in ('STDEVP', 'STDEV.P'):
+            return _stdev(xs, False)
+        return _APPROX[fn](*xs)
+    except (KeyError, ValueError, OverflowError, ZeroDivisionError):
+        return None
+
+
 def matches(exp, obs):
     """Is the observed abstract value (from alpha) in the expected class?"""
     ke, ko = exp.get('k'), obs.get('k')
@@ -168,6 +197,9 @@ def matches(exp, obs):
     if ke == 'approx':
         if ko != 'f':
             return False
+        if 'fn' in exp:
+            ref = approx_ref(exp['fn'], [num_of(a) for a in exp['args']])
+            return ref is not None and close(ref, obs['x'])
         s = exp.get('sign', 2)
         x = obs['x']
         return s == 2 or (s == 0 and x == 0) or (s > 0 and x > 0) or (s < 0 and x < 0)
